@@ -11,6 +11,8 @@ What is decided here, and by what:
     custom_glue : Math/_IntegerCustom.py pow() / _mult_modulo_bytes over the CONTRACT of src/modexp.c (operands of one
                common length, odd modulus; the C itself: modexp_c below) for operands of different byte lengths
     mr_prime : Miller-Rabin never declares a prime composite, for EVERY random tape (all bases), primes below 2^8
+    mr_round : one round of both Miller-Rabin implementations == the strong-probable-prime predicate for EVERY base, odd n
+               below 2^8 and the Carmichael numbers 561, 1105, 1729 (and 2047)
   LLSYM on the real C:
     conv_c   : endianess.h bytes_to_words / words_to_bytes (as compiled into mont.c) for every length 1..17 and
                word count: value preserved, leading zeros, refusal exactly when the value does not fit
@@ -366,6 +368,51 @@ def run_mr_prime(env, sh):
     env.check(r == Primality.PROBABLY_PRIME, 'the prime %d is never declared composite' % p)
 
 
+def run_mr_round(env, sh):
+    """one Miller-Rabin round for a concrete odd n and EVERY base: 'probably prime' exactly when the base is a strong
+    probable-prime base of n (a^d = 1, or a^(d 2^r) = -1 for some r < s, where n - 1 = d 2^s) -- both implementations
+    (Math.Primality.miller_rabin_test and the legacy Util.number._rabinMillerTest); the base is injected in place of the
+    random draw (the sampling itself is C18)"""
+    from props.c05 import powmod_ref
+    n, impl = sh['n'], sh['impl']
+    a = env.int('a', n.bit_length())
+    undo = _shims(env)
+    try:
+        if impl == 'primality':
+            from Crypto.Math import Primality
+            from Crypto.Math.Numbers import Integer as NI
+            env.assume(env.And(a >= 2, a <= n - 2))
+            real = NI.random_range
+            NI.random_range = classmethod(lambda cls, **kw: NI(a))
+            try:
+                r = Primality.miller_rabin_test(n, 1, randfunc=lambda k: b"\x00" * k)
+            finally:
+                NI.random_range = real
+            passed = (r == Primality.PROBABLY_PRIME)
+        else:
+            from Crypto.Util import number
+            env.assume(env.And(a >= 2, a < n))
+            real = number.getRandomRange
+            number.getRandomRange = lambda lo, hi, randfunc=None: a
+            try:
+                r = number._rabinMillerTest(n, 1, randfunc=lambda k: b"\x00" * k)
+            finally:
+                number.getRandomRange = real
+            passed = (r == 1)
+    finally:
+        undo()
+    d, s_ = n - 1, 0
+    while d % 2 == 0:
+        d //= 2
+        s_ += 1
+    x = powmod_ref(env, a, d, n, d.bit_length())
+    conds = [x == 1]
+    for _ in range(s_):
+        conds.append(x == n - 1)
+        x = (x * x) % n
+    env.check(env.eqv(passed, env.Or(*conds)), 'one round on n = %d passes exactly for the strong probable-prime bases (every base)' % n)
+
+
 # ---------------------------------------------------------------- LLSYM
 
 def run_conv_c(env, sh):
@@ -460,6 +507,7 @@ HARNESSES = dict(int_algo=Harness('int_algo', run_int_algo, max_paths=100000, bu
                  conv_c=Harness('conv_c', run_conv_c), modexp_c=Harness('modexp_c', run_modexp_c, budget_s=900),
                  modexp_refuse=Harness('modexp_refuse', run_modexp_refuse))
 HARNESSES['bignum'] = _c06().HARNESSES['bignum']
+HARNESSES['mr_round'] = Harness('mr_round', run_mr_round, max_paths=100000, budget_s=900)
 HARNESSES['custom_glue'] = Harness('custom_glue', run_custom_glue, max_paths=100000, budget_s=900)
 
 
@@ -500,6 +548,10 @@ def shapes(tier):
         jobs.append(('mr_prime', dict(p=p, iters=1, draws=3)))
     for p in (13, 17, 97, 193) if th else (17, 97):
         jobs.append(('mr_prime', dict(p=p, iters=2, draws=4)))
+    odd = list(range(9, 256, 2)) if th else [9, 15, 21, 25, 49, 65, 85, 91, 121, 133, 145, 169, 217, 221, 231, 247, 255, 13, 97, 193, 241]
+    for n in odd + [561, 1105, 1729, 2047]:
+        for impl in ('primality', 'legacy'):
+            jobs.append(('mr_round', dict(n=n, impl=impl)))
     for n in range(1, 18) if th else (1, 7, 8, 9, 16, 17):
         for words in sorted(set([max(1, (n + 7) // 8 - 1), (n + 7) // 8, (n + 7) // 8 + 1])):
             jobs.append(('conv_c', dict(dir='b2w', n=n, words=words)))
@@ -536,7 +588,7 @@ def shapes(tier):
 
 BOUNDS = dict(int_algo="operands: every value of the stated reduced width (4..16 bits for the looping algorithms, up to 72 bits for conversions, sizes, shifts and "
               "operators), negative values where the operation accepts them; every block size / byte order; modular square roots for 6 (thorough 11) prime moduli",
-              mr="every prime below 2^8 (quick: every fourth), 1..2 iterations, every random tape with up to 2 rejected draws",
+              mr="every prime below 2^8 (quick: every fourth), 1..2 iterations, every random tape with up to 2 rejected draws; one round vs the strong-probable-prime predicate for every base of every odd n below 2^8 (quick: 21 values) and 561, 1105, 1729, 2047",
               conv="byte lengths 1..17 (quick: 1,7,8,9,16,17), word counts around the exact fit; words -> bytes for 1..2 (3) words",
               modexp="CONCRETE operands of 1..65 bytes (quick 1..33) at word boundaries, exponents 0, 1, 2, 3-byte and full-length, leading zero bytes",
               outside=["exactness of mont_mult_* / addmul128 / square / product for ALL operands (wide symbolic multiplication is not SMT-decidable here); modexp_c "
